@@ -310,7 +310,9 @@ def replay_key(cex):
 
 def run_task(task):
     t0 = time.time()
-    r = decide(task["params"]["N"], task["timebox"], task.get("seed", 0), selftest=bool(task["params"].get("selftest")))
+    # the solver budget is fixed per tier and NOT the task's time box: common.fit_budget scales time boxes to the wall budget, and
+    # a scaled-down box would turn a query that needs ~2 min (N=96) into `unknown` = INCONCLUSIVE
+    r = decide(task["params"]["N"], float(task["params"].get("budget", task["timebox"])), task.get("seed", 0), selftest=bool(task["params"].get("selftest")))
     inconcl = [{"reason": "key unit: " + r["inconclusive"]}] if r["inconclusive"] else []
     viol = [{"rules": "", "hist": {}, "kind": "class", "info": {"key": c}} for c in r["cex"]]
     nq = len(r["queries"])
